@@ -621,6 +621,9 @@ def run(ctx):
     nd += orm_duration_layer(ctx)
     ctx.layer("duration-components", translations=nd, exhaustive=True,
               note="SQL dialects: the interval expression denotes every signed component of the literal; ORM backends: the bound timedelta equals the literal's value")
+    ndt = C09.datetime_literal_layer(ctx)
+    ctx.layer("datetime-components", translations=ndt, exhaustive=True,
+              note="SQL dialects: a date-time literal with seconds, fraction or offset is translated whole or refused, never truncated (reading of C09's layer)")
     if not ctx.quick:
         before = ctx.counts["states"]
         red = typed.Enumerator(SC.reduced_sigs(C18.sigs()), {k_: v[:1] for k_, v in enum().leaves.items()})
@@ -669,7 +672,7 @@ def orm_duration_layer(ctx):
 
 def replay(ctx, case):
     django_h.setup()
-    if case.get("layer") == "durations":
+    if case.get("layer") in ("durations", "datetime-literals"):
         return C09.replay(ctx, case)
     if case.get("kind") == "duration-value":
         acc = Acc()
